@@ -49,10 +49,14 @@ def run(ctx: core.Ctx):
     b2check.run_b2(ctx, lambda rng, th: [(gen.with_second(rng, gen.conn_traffic(rng, max_threads=2, max_cmds=16)), rng.randrange(10 ** 9), rng.choice([0, 3])) for _ in range(4000 if th else 100)], ["C01two"],
                    label="a second connection with its own traffic alive in the same process (monitor only, first connection judged)", accept=False)
     b2check.run_b2(ctx, jobs_api, MONS, label="YncaApi.send_raw after initialize(), monitor only", accept=False)
+    T = core.tables()
+    b2check.run_b2(ctx, lambda rng, th: [(gen.api_typed_two(rng, T), rng.randrange(10 ** 9), 0) for _ in range(2000 if th else 40)], ["C01api2"],
+                   label="typed attribute writes of one YncaApi object while another YncaApi object (another receiver) is alive in the same process, monitor only", accept=False)
     ctx.info["rule"] = ("sessions of 1..4 callers with bursts of unique commands and idle gaps around the keep-alive interval; each under a seeded schedule with extra line-level preemptions; a case = one schedule; "
                         "non-trivial = distinct (spec, seed)")
     return ctx.finish()
 
 
 def replay(ctx, path):
-    return b2check.replay_b2(json.load(open(path))["replay"], ["C01"])
+    rp = json.load(open(path))["replay"]
+    return b2check.replay_b2(rp, ["C01api2" if rp["spec"].get("other_keep") else "C01"])
